@@ -4,6 +4,7 @@
 (* build_converter, BoundRoute.match_path), specified on characters.       *)
 (*                                                                         *)
 (* Alphabet: "/", letters "a" "e", digit "5", ".", "-", "+", " ", "é"      *)
+(* (plus their upper-case forms "A" "E" "É" in the case probes)             *)
 (* (one-character strings).  A path is a sequence of characters starting   *)
 (* with "/".  A pattern is [els, trail]: els a sequence of                 *)
 (*     [k |-> "lit", v |-> chars]                                          *)
@@ -34,7 +35,7 @@ StripSign(s) == IF s # <<>> /\ Sign(Head(s)) THEN Tail(s) ELSE s
 IntShape(s) == LET r == StripSign(s) IN r # <<>> /\ LeadDigits(r) = Len(r)
 
 \* exponent part: "e" sign? digits+   (or nothing)
-ExpShape(s) == s = <<>> \/ (Head(s) = "e" /\ LET r == StripSign(Tail(s)) IN r # <<>> /\ LeadDigits(r) = Len(r))
+ExpShape(s) == s = <<>> \/ (Head(s) \in {"e", "E"} /\ LET r == StripSign(Tail(s)) IN r # <<>> /\ LeadDigits(r) = Len(r))
 FloatShape(s) ==
     LET r == StripSign(s)
         n == LeadDigits(r)
